@@ -22,7 +22,7 @@ FAMILY_BOUNDS = {
     'iter': '~65 patterns x ~35 texts x backtrack limits {default,1,3,30}: find_iter / captures_iter / split / splitn(n = 0..pieces+1) vs the reference model driven by the real single-shot search; then, for the rest of the budget, seeded generated patterns (the generator of the reference matcher, each also with \\G alternatives) x 14 short texts x limits {default,3}',
     'search': '~80 corpus patterns + 462 group-metadata patterns (6 group forms x 11 quantifiers incl. {0} x 7 contexts, delegated and VM-compiled) x ~40 texts x every char-boundary start offset: entry-point coherence (also under backtrack limits 1, 3, 30: is_match / find / captures agree on Ok / Err), offset validity, group metadata; then seeded generated patterns (with \\G variants) x 14 short texts for the rest of the budget; each pattern is also built through RegexBuilder with delegate_size_limit / delegate_dfa_size_limit set: same captures_len, names and captures as Regex::new',
     'analyze': '~2000 patterns from a 3-level grammar (incl. huge repeat counts) : Info facts vs match-length sets enumerated up to 14 characters',
-    'parse': 'Regex::new under catch_unwind with an allocation tracker: (1) deep-nesting patterns (16 opening constructs x depth 100 / 300 / 200 000 x closed / unclosed) and 6 long FLAT patterns (60 000 alternatives / pieces / repeats at one level), each in a child process (a native stack overflow kills the child); (1b) 13 hosts x 19 bodies of literal pieces (plain characters in nested non-capturing / flag groups as the whole body of look-arounds, atomic groups, repeats, conditionals); (2) seeded random sequences of 4..8 tokens for a quarter of the budget; (3) ALL sequences of <= 3 tokens over an 84-token vocabulary of syntax fragments (599 844 patterns): no panic, no abort, parse-error position <= length, back-reference numbers < length, no single allocation > 16 MiB',
+    'parse': 'Regex::new under catch_unwind with an allocation tracker: (1) deep-nesting patterns (16 opening constructs x depth 100 / 300 / 200 000 x closed / unclosed) and 6 long FLAT patterns (60 000 alternatives / pieces / repeats at one level), each in a child process (a native stack overflow kills the child); (1b) 13 hosts x 19 bodies of literal pieces (plain characters in nested non-capturing / flag groups as the whole body of look-arounds, atomic groups, repeats, conditionals); (2) seeded random sequences of 4..8 tokens for a quarter of the budget; (3) ALL sequences of <= 3 tokens over a 110-token vocabulary of syntax fragments (1 343 210 patterns; incl. escape and group heads cut off before their argument): no panic, no abort, parse-error position <= length, back-reference numbers < length, no single allocation > 16 MiB',
     'expand': 'all templates of length <= 6 (quick: as many as fit in the time budget, lengths ascending; >= all of length <= 5) over {$ { } \\ g < > 0 1 9 x _ e-acute space - superscript-two} x 4 regex/captures setups (named, numbered, unmatched groups, a group whose name is a number other than its index) x both expanders: expansion, append_expansion, escape round trip, check, Captures::expand',
     'replace': '~70 patterns x ~35 texts x backtrack limits {default,1,3} x limits 0..3 x 12 templates + NoExpand + closures; equality of template-without-$ / NoExpand / closure results INCLUDING whether the result is Err (patterns whose (n+1)-th search exceeds the limit); then seeded generated patterns (with \\G variants) x 14 short texts for the rest of the budget; templates include `$` before non-ASCII letters / digits, `$-1`, `$-`, `$ $`',
     'refsem': 'independent reference matcher (ordered backtracking over its own syntax tree) vs Regex::captures_from_pos, overall span and every group, at every char-boundary start offset: ~250 fixed shapes (repeats of hard bodies in tail / non-tail position, every empty / easy-with-choices / hard combination of conditional branches) then pseudo-random patterns of depth 2..4 (seeded; as many as fit in the budget, ~1000 patterns/s) x all 781 texts over {a,b,c,e-acute,-} of length <= 4 plus 5 longer ones; left out: unbounded repeats of empty-matchable bodies (F1), conditionals below a commit (KF2), \\K in look-arounds, back-references to open groups',
